@@ -324,6 +324,31 @@ Section GridIntrinsic.
       map (fun it => (range_start it, range_len it, contrib it KMaxContent)) (filter (fun it => it_crosses_flex it) items).
   End WithOracle.
 
+  (* ---- items that are leaves of a fixed size (the class the correspondence check runs and the witnesses use).
+     GridItem::spanned_fixed_track_limit: the sum of the definite max track sizing functions of the spanned tracks *)
+  Definition spanned_fixed_track_limit (inner : option T) (it : item) (tracks : list track) : option T :=
+    let sl := item_slice it tracks in
+    if forallb (fun t => match definite_value inner (maxf t) with Some _ => true | None => false end) sl
+    then Some (fsum (map (fun t => match definite_value inner (maxf t) with Some v => v | None => zero end) sl))
+    else None.
+
+  (* the item record of a child placed at track `first` (0-based over the whole track vector) spanning `span` tracks *)
+  Definition mk_axis_item (id : nat) (line : Z) (first span : nat) (scroll : bool) (margin : T) (tracks : list track) : item :=
+    let st := (2 * first)%nat in
+    let en := (2 * (first + span))%nat in
+    let sl := slice tracks (S st) (en - S st) in
+    mk_item id line span st en (existsb is_flexible sl) (existsb has_intrinsic_sizing_function sl) scroll margin.
+
+  (* what GridItem::{min_content,max_content,minimum}_contribution_cached return for a leaf whose `size` style is the
+     length sizes[id] (border-box, no padding / border / min / max / aspect ratio): its size; the minimum contribution
+     is capped by spanned_fixed_track_limit *)
+  Definition leaf_contrib (inner : option T) (tracks : list track) (sizes : list T) (it : item) (k : ckind) : T :=
+    let size := nth (it_id it) sizes zero in
+    match k with
+    | KMinContent | KMaxContent => size
+    | KMinimum => match spanned_fixed_track_limit inner it tracks with Some l => fmin size l | None => size end
+    end.
+
   (* track_sizing_algorithm with the whole of 11.5 *)
   Definition track_sizing_algorithm_full (contrib : item -> ckind -> T) (axis_min axis_max : option T) (stretch : bool)
              (avail : avail_space T) (inner : option T) (items : list item) (tracks : list track) : list track :=
